@@ -576,7 +576,21 @@ def analyse_class(ctx, c):
     ctx.ob('C17.a', c.fq, False, 'state changes of the manager are recognised', c.loc,
            'no acquire operation recognised in __enter__')
     return
+  # a save stack: `self.<S>.append(<value read from the scope storage>)` in __enter__, popped in
+  # __exit__ - the per-entry form of the save slot `self._saved = <read>` (a manager object that
+  # is entered again while active needs one saved value per entry).  It is bookkeeping of the
+  # manager object, not scope state.
+  save_stacks = set()
+  for n in ast.walk(en.node):
+    if isinstance(n, ast.Call) and isinstance(n.func, ast.Attribute) and n.func.attr == 'append' and n.args \
+        and (A.dotted(n.func.value) or '').startswith('self.') \
+        and D.may_derive_from_call(en.node, n.args[0], lambda d: d.split('.')[-1] in READS):
+      if any(isinstance(x, ast.Call) and isinstance(x.func, ast.Attribute) and x.func.attr == 'pop'
+             and A.dotted(x.func.value) == A.dotted(n.func.value) for x in ast.walk(ex.node)):
+        save_stacks.add(A.dotted(n.func.value))
   for a in acq:
+    if a.key in save_stacks or f'self.{a.key}' in save_stacks:
+      continue
     construct = f'{c.fq}#{a.kind}:{a.key}'
     rel = [op for n in gx.nodes if n.ast is not None for op in ops_at(n)
            if op.kind in RELEASES[a.kind] and op.key == a.key]
@@ -588,6 +602,26 @@ def analyse_class(ctx, c):
            f'{c.module.relpath}:{a.site.lineno}',
            f'__exit__ can return without undoing {a.kind}({a.key})',
            gx.witness_str(parent, gx.exit) if bad else None)
+    # ... and every exceptional one: a statement of __exit__ that runs before the restore and can
+    # raise (TimeIt.__exit__ called self.end(exc_value), which formats the exception: a raising
+    # __str__ left the scope installed) must not be able to leave without it
+    rel_sites = {id(r.site) for r in rel}
+    def holds_release(st):
+      return any(id(x) in rel_sites for x in ast.walk(st))
+    bad_x = False
+    for st in ex.node.body:
+      if isinstance(st, ast.Try) and any(holds_release(b) for b in st.finalbody):
+        break                                  # whatever the body raises, the finally restores
+      if holds_release(st):
+        break
+      if any(isinstance(x, ast.Call) for x in ast.walk(st)):
+        bad_x = True                           # a call that may raise, before the restore, unprotected
+        break
+    bad_x = bad_x and not bad
+    ctx.ob('C17.a', construct + '#exceptional', not bad_x,
+           'no statement of __exit__ that can raise runs before the restore outside a try/finally',
+           f'{c.module.relpath}:{a.site.lineno}',
+           f'an exception raised in __exit__ before {a.kind}({a.key}) is undone leaves the scope installed')
     for r in rel:
       if (a.kind, r.kind) in SET_RESTORES:
         # value restored is self.<attr> assigned in __enter__ from a read of the key
@@ -599,6 +633,12 @@ def analyse_class(ctx, c):
             if isinstance(n, ast.Assign) and any(A.unparse(t) == A.dotted(v) for t in n.targets):
               if D.may_derive_from_call(en.node, n.value, lambda d: d.split('.')[-1] in READS):
                 ok = True
+        elif isinstance(v, ast.Name):
+          # popped from the save stack of this manager
+          for _, dv in D.defs_of(ex.node, v.id):
+            if isinstance(dv, ast.Call) and isinstance(dv.func, ast.Attribute) and dv.func.attr == 'pop' \
+                and A.dotted(dv.func.value) in save_stacks:
+              ok = True
         ctx.ob('C17.b', f'{construct}->restore@{r.kind}', ok,
                'the restored value is the one read in __enter__ before the change',
                f'{c.module.relpath}:{r.site.lineno}', '' if ok else why)
@@ -610,6 +650,13 @@ def analyse_class(ctx, c):
   # __enter__ then still holds what an earlier entry saw
   read_in_exit = {A.dotted(n) for n in ast.walk(ex.node) if isinstance(n, ast.Attribute) and isinstance(n.ctx, ast.Load)
                   and (A.dotted(n) or '').startswith('self.') and (A.dotted(n) or '').count('.') == 1}
+  for stk in sorted(save_stacks):
+    pushes = [k for k in ge.nodes if k.ast is not None and any(
+        isinstance(x.func, ast.Attribute) and x.func.attr == 'append' and A.dotted(x.func.value) == stk for x in k.calls())]
+    w = ge.can_skip(ge.entry, lambda n: n in pushes)
+    ctx.ob('C17.b', f'{c.fq}#{stk[5:]}:saved-on-every-entry', w is None,
+           f'`{stk}`, which __exit__ pops, is pushed on every path through __enter__ (or an exit pops what another '
+           f'entry saved)', f'{c.module.relpath}:{pushes[0].lineno}', f'a path through __enter__ pushes nothing: {w}')
   for attr in sorted(read_in_exit):
     assigns = [k for k in ge.nodes if k.kind == 'stmt' and isinstance(k.ast, (ast.Assign, ast.AnnAssign))
                and any(A.unparse(t) == attr for t in A.stmt_targets(k.ast))]
@@ -1102,8 +1149,96 @@ def rule_i(ctx):
          '(cascade and override_attrs preserved)', f.loc, '; '.join(problems))
 
 
+def rule_k(ctx):
+  """The storage of a scope lives as long as the scope can be open.  An object that keeps
+  per-thread scope storage in an attribute (`self.X = threading.local()`) creates it once:
+  an assignment in `_on_bound` / `_on_change` - which run again at every rebind - is guarded
+  by a presence test, or a rebind inside an open scope replaces the storage and the
+  override is lost for the rest of the scope (and the scope's exit restores into the old
+  storage)."""
+  idx = ctx.index
+  n = 0
+  for c in idx.all_classes():
+    if c.module.relpath.endswith('_test.py'):
+      continue
+    for mname in ('_on_bound', '_on_change', '_on_init'):
+      m = c.methods.get(mname)
+      if m is None:
+        continue
+      g = C.cfg_of(m.node)
+      for k in g.nodes:
+        if not (k.kind == 'stmt' and isinstance(k.ast, ast.Assign) and isinstance(k.ast.value, ast.Call)
+                and (A.call_name(k.ast.value) or '').split('.')[-1] == 'local'
+                and (A.dotted(k.ast.targets[0]) or '').startswith('self.')):
+          continue
+        attr = A.dotted(k.ast.targets[0]).split('.')[1]
+        n += 1
+        if mname == '_on_init':
+          ok = True
+        else:
+          tests = [t for t in g.nodes if t.kind == 'test' and attr in A.unparse(t.ast)]
+          # reachable with no presence test passed?
+          blocked = {(t.id, mm.id, l) for t in tests for mm, l in t.succ}
+          seen, _ = g.reach(g.entry, blocked_edges=blocked, follow_exc=False)
+          ok = k.id not in seen
+        ctx.ob('C17.k', f'{c.name}.{mname}#{attr}', ok,
+               f'the per-thread scope storage `self.{attr}` is created once, not at every rebind', f'{c.module.relpath}:{k.lineno}',
+               f'`{A.unparse(k.ast)}` runs at every rebind: `with a.override(x=2): a.rebind(y=3); a.x` reads the attribute\'s '
+               f'own value again although the scope is still open')
+  ctx.ob('C17.k', 'scope-storage-attributes', True, f'{n} per-thread storage attributes examined', 'pyglove/core/symbolic/contextual_object.py:1')
+
+
+def rule_l(ctx):
+  """Absence is the neutral state of a per-thread key whose reader falls back to a
+  process-wide value (`thread_local_get(KEY, <global>)`): leaving a per-thread scope must
+  remove the key, not store None in it - a stored None is "present", so the fallback to a
+  process-wide setting made later never happens in that thread.  For every TLS key read
+  with a non-constant default, each `thread_local_set(KEY, v)` is dominated by a test that
+  excludes `v is None` (the None case deletes the key)."""
+  idx = ctx.index
+  n = 0
+  for m in idx.by_relpath.values():
+    if m.relpath.endswith('_test.py'):
+      continue
+    fallback_keys = set()
+    for f in m.funcs.values():
+      for c in A.calls_in(f.node):
+        if (A.call_name(c) or '').split('.')[-1] == 'thread_local_get' and len(c.args) >= 2 \
+            and isinstance(c.args[1], ast.Name) and c.args[1].id.startswith('_global'):
+          fallback_keys.add(A.unparse(c.args[0]))
+    if not fallback_keys:
+      continue
+    for f in sorted(m.funcs.values(), key=lambda x: x.fq):
+      g = C.cfg_of(f.node)
+      for k in g.nodes:
+        if k.ast is None:
+          continue
+        for c in k.calls():
+          if (A.call_name(c) or '').split('.')[-1] == 'thread_local_set' and len(c.args) >= 2 \
+              and A.unparse(c.args[0]) in fallback_keys and isinstance(c.args[1], ast.Name):
+            v = c.args[1].id
+            tests = [t for t in g.nodes if t.kind == 'test' and isinstance(t.ast, ast.Compare) and v in A.names_read(t.ast)
+                     and any(isinstance(o, (ast.Is, ast.IsNot)) for o in t.ast.ops)]
+            ok = False
+            for t in tests:
+              none_lab = 'true' if isinstance(t.ast.ops[0], ast.Is) else 'false'
+              blocked = {(t.id, mm.id, l) for mm, l in t.succ if l != none_lab}
+              seen, _ = g.reach(t, blocked_edges=blocked, follow_exc=False)
+              if k.id not in seen:
+                ok = True
+            n += 1
+            ctx.ob('C17.l', f'{f.qualname}#{A.unparse(c.args[0])}', ok,
+                   'a per-thread key whose reader falls back to the process-wide value is removed, not set to None',
+                   f'{m.relpath}:{c.lineno}',
+                   f'`{A.unparse(c, 70)}` may store None: after a per-thread scope the key stays present with None, and a '
+                   f'process-wide setting made afterwards is invisible in this thread')
+  ctx.ob('C17.l', 'fallback-keys', True, f'{n} stores to per-thread keys with a process-wide fallback examined', 'pyglove/core/hyper/base.py:1')
+
+
 def run(ctx):
   ctx.consult(*FILES)
+  rule_k(ctx)
+  rule_l(ctx)
   idx = ctx.index
   gens, classes = context_managers(idx)
   if len(gens) < 8:
